@@ -324,7 +324,7 @@ def run_case(ctx, case):
         gval = {"2": 2, "0": 0, "1": 1, "p-1": p - 1}[g]
         ctx.case(case, bad, ["client", "gex-group", "gex-group:out-of-range" if bad else "gex-group:in-range", "kex:" + kex])
         r = _session(kex, [(gval, p)], None)
-        if bad and (r["ce"] is None or r["c_done"] or r["c_newkeys"]):
+        if bad and (r["c_done"] or r["c_newkeys"]):
             ctx.violation("gex-modulus-size", "client:%s-bit-modulus-accepted" % ("short" if bits < 1024 else "long"), case, "p has %d bits; start_client -> %r, client sent %r" % (bits, r["ce"], r["c_types"]))
             return False
         return True
@@ -379,7 +379,10 @@ def run_case(ctx, case):
             ctx.count("control:signed-in-range-reply-accepted")
         return True
     if role == "server":
-        if r["s_newkeys"] or r["s_done"] or r["se"] is None:
+        if r["se"] is None and not r["s_newkeys"] and not r["s_done"]:
+            ctx.inconc("server-neither-failed-nor-proceeded-in-time")
+            return True
+        if r["s_newkeys"] or r["s_done"]:
             ctx.violation(
                 "invalid-peer-value-rejected",
                 "server:%s:%s" % (fam, _bucket(fam, spec, val)),
@@ -388,7 +391,10 @@ def run_case(ctx, case):
             )
             return False
     else:
-        if r["c_newkeys"] or r["c_done"] or r["ce"] is None:
+        if r["ce"] is None and not r["c_newkeys"] and not r["c_done"]:
+            ctx.inconc("client-neither-failed-nor-proceeded-in-time")  # start_client timeout, not an acceptance
+            return True
+        if r["c_newkeys"] or r["c_done"]:
             ctx.violation(
                 "invalid-peer-value-rejected",
                 "client:%s:%s%s" % (fam, _bucket(fam, spec, val), ":signed" if forged else ""),
